@@ -121,6 +121,40 @@ def Content.exhausted : Content → Prog Unit
   | .prim _ => limitedExhausted
   | .cons c => c.exhausted
 
+/-- the part of `Constructed::process_next_value` after the identifier and length octets have
+    been read: end-of-contents handling, then the definite / indefinite arm that narrows the limit,
+    runs the closure, checks exhaustion and restores the limit -/
+def processValueBody (c : Cons) (op : Tag → Content → Prog (α × Content))
+    (tag : Tag) (constructed : Bool) (length : Length) : Prog (Option α × Cons) := do
+  if tag = Tag.END_OF_VALUE then
+    if c.state = .indefinite then
+      if constructed then contentErr
+      else if !length.isZero then contentErr
+      else return (none, { c with state := .done })
+    else contentErr
+  else
+    match length with
+    | .definite len =>
+      let limit ← getLimit
+      if (match limit with | some l => decide (len > l) | none => false) then contentErr
+      else
+        -- limit_further(Some(len)) : its assertion `len <= cur` is the check above
+        setLimit (some len)
+        if constructed && c.mode == .cer then contentErr
+        else
+          let content : Content :=
+            if constructed then .cons ⟨.definite, c.mode⟩ else .prim c.mode
+          let (res, content') ← op tag content
+          content'.exhausted
+          setLimit (limit.map (· - len))
+          return (some res, c)
+    | .indefinite =>
+      if !constructed || c.mode == .der then contentErr
+      else
+        let (res, content') ← op tag (.cons ⟨.indefinite, c.mode⟩)
+        content'.exhausted
+        return (some res, c)
+
 /-- `Constructed::process_next_value`.  The closure gets the tag and the content and returns its
     result together with the content as it left it (the state of a nested `Constructed` is what
     the exhaustion check afterwards looks at). -/
@@ -137,34 +171,7 @@ def processNextValue (c : Cons) (expected : Option Tag)
   | none => return (none, c)
   | some (tag, constructed) =>
     let length ← Length.takeFrom c.mode
-    if tag = Tag.END_OF_VALUE then
-      if c.state = .indefinite then
-        if constructed then contentErr
-        else if !length.isZero then contentErr
-        else return (none, { c with state := .done })
-      else contentErr
-    else
-      match length with
-      | .definite len =>
-        let limit ← getLimit
-        if (match limit with | some l => decide (len > l) | none => false) then contentErr
-        else
-          -- limit_further(Some(len)) : its assertion `len <= cur` is the check above
-          setLimit (some len)
-          if constructed && c.mode == .cer then contentErr
-          else
-            let content : Content :=
-              if constructed then .cons ⟨.definite, c.mode⟩ else .prim c.mode
-            let (res, content') ← op tag content
-            content'.exhausted
-            setLimit (limit.map (· - len))
-            return (some res, c)
-      | .indefinite =>
-        if !constructed || c.mode == .der then contentErr
-        else
-          let (res, content') ← op tag (.cons ⟨.indefinite, c.mode⟩)
-          content'.exhausted
-          return (some res, c)
+    processValueBody c op tag constructed length
 
 /-- `Constructed::mandatory` and the `None => Err(..)` arms of the mandatory readers -/
 def mandatory (p : Prog (Option α × Cons)) : Prog (α × Cons) := do
